@@ -93,6 +93,8 @@ def make_pool(darsia, rng):
         P["imglist"] = [P["M1"], P["M2"], P["Sone"]]
         P["timelist"] = [0.0, 1.5, 4.0]
         P["originlist"] = [3.0, 7.0]
+        P["originarr"] = np.array([0.25, 1.75])
+        P["Bo"] = darsia.ScalarImage(rs.randint(1, 9, size=(H, W)).astype(float), dimensions=[0.5 * H, 0.25 * W], origin=[0.25, 1.75], name="Bo")
         P["cfgdrift"] = {"active": False, "padding": 0.1, "roi": np.array([[0, 0], [H - 1, W - 1]])}
         P["U8a"] = darsia.ScalarImage(rs.randint(0, 100, size=(H, W)).astype(np.uint8), dimensions=[0.5 * H, 0.25 * W])
         P["U8b"] = darsia.ScalarImage(rs.randint(0, 100, size=(H, W)).astype(np.uint8), dimensions=[0.5 * H, 0.25 * W])
@@ -199,6 +201,14 @@ def registry(darsia):
     add("ctor_time_list", lambda P, r: darsia.Image(P["S"].img.copy(), space_dim=2, dimensions=P["dimsB"], scalar=True, series=True, time=P["timelist"]))
     add("ctor_origin_list", lambda P, r: darsia.Image(P["arrA"].copy(), space_dim=2, dimensions=P["dimsB"], origin=P["originlist"], scalar=True))
     add("drift_caller_config", lambda P, r: darsia.DriftCorrection(P["Cf"].img, config=P["cfgdrift"])(P["Cf"]))
+    # images derived from other images (or from a caller's origin array), then given a new origin: the source keeps its own
+    add("ctor_origin_array", lambda P, r: darsia.Image(P["arrA"].copy(), space_dim=2, dimensions=P["dimsB"], origin=P["originarr"], scalar=True))
+    add("ctor_origin_array_then_reset", lambda P, r: darsia.Image(P["arrA"].copy(), space_dim=2, dimensions=P["dimsB"], origin=P["originarr"], scalar=True).reset_origin(return_image=True))
+    add("zeros_like_then_reset", lambda P, r: darsia.zeros_like(P["Bo"]).reset_origin(return_image=True))
+    add("ones_like_then_reset", lambda P, r: darsia.ones_like(P["Bo"]).reset_origin(return_image=True))
+    add("astype_class_then_reset", lambda P, r: P["Bo"].astype(darsia.Image).reset_origin(return_image=True))
+    add("metadata_ctor_then_update", lambda P, r: darsia.Image(P["Bo"].img.copy(), **P["Bo"].metadata()).update_metadata(origin=darsia.Coordinate([9.0, 9.0])))
+    add("subregion_then_reset", lambda P, r: P["Bo"].subregion((slice(0, 2), slice(0, 2))).reset_origin(return_image=True))
     # arithmetic on the other pixel types
     add("add_uint8", lambda P, r: P["U8a"] + P["U8b"])
     add("sub_float32", lambda P, r: P["F32"] - P["F32"])
